@@ -11,9 +11,80 @@ are visible (that is C10's law); it has no say over the styling protocol. So, wh
 opening style per highlighted group of a styled level and one reset per group, in nesting order —
 `specStyles`, which does not look at any parameter — and in particular every opening sequence is
 matched by a later reset, properly nested (`wellNested`). Without colour there is no escape at all.
+
+WHERE the style and the reset sit: "each highlighted group [is] followed by a reset" is about the
+group's text as it is displayed. The statement of C10 ("cut to the first M characters, then pad
+with the fill character on the chosen side up to m characters") lifted to a stream in which style
+requests are not characters gives `fmtSpecOps`: the cut keeps every style request and the first M
+characters; the padding goes OUTSIDE the group's content, on the chosen side. For a highlighted
+group this puts the fill characters outside the style/reset pair and leaves between the pair
+exactly the visible part of the group's content: `specOps`. C10's law is stated for `m ≤ M`
+(`ordered`); for those patterns the expectation is token-exact (`specFToks`), for the others only
+the style protocol is specified here.
 -/
 namespace Log4rs.Console.Spec
 open Log4rs Log4rs.Console
+open Log4rs.Pattern (Op Out Params ofText fills)
+
+/-! ### the width law on streams with style requests -/
+
+/-- the first `M` characters; style requests are not characters and are all kept -/
+def cutOps : Nat → Out → Out
+  | _, [] => []
+  | M, .style s :: rest => .style s :: cutOps M rest
+  | 0, .ch _ :: rest => cutOps 0 rest
+  | M + 1, .ch c :: rest => .ch c :: cutOps M rest
+
+/-- C10's statement (`Pattern.specFmt`) with style requests passing through: cut, then pad the
+cut text to the minimum width with the fill character on the chosen side -/
+def fmtSpecOps (p : Params) (o : Out) : Out :=
+  let cut := match p.maxW with
+    | some M => cutOps M o
+    | none => o
+  match p.minW with
+  | none => cut
+  | some m =>
+    let pad := ofText (fills p.fill (m - (Out.text cut).length))
+    if p.right then pad ++ cut else cut ++ pad
+
+/-- the side condition of C10's statement: a minimum width does not exceed the maximum width -/
+def paramsOrdered (p : Params) : Bool :=
+  match p.minW, p.maxW with
+  | some m, some M => decide (m ≤ M)
+  | _, _ => true
+
+def fOrdered : FChunks → Bool
+  | .nil => true
+  | .text _ rest => fOrdered rest
+  | .highlight p inner rest => paramsOrdered p && fOrdered inner && fOrdered rest
+  | .group p inner rest => paramsOrdered p && fOrdered inner && fOrdered rest
+
+/-- a highlighted group's own output: the level's style, the content, the reset (nothing for Debug) -/
+def specWrap (level : Nat) (o : Out) : Out :=
+  match highlightStyle level with
+  | some st => [Op.style st] ++ o ++ [Op.style Style.plain]
+  | none => o
+
+/-- what a pattern must hand to its writer for a record of level `level` -/
+def specOps (level : Nat) : FChunks → Out
+  | .nil => []
+  | .text cs rest => ofText cs ++ specOps level rest
+  | .highlight p inner rest => fmtSpecOps p (specWrap level (specOps level inner)) ++ specOps level rest
+  | .group p inner rest => fmtSpecOps p (specOps level inner) ++ specOps level rest
+
+/-- a stream of characters and style requests as tokens on the wire: characters as UTF-8, a style
+request as its SGR sequence when colour is on and as nothing when it is off -/
+def toksOfOps (colour : Bool) : Out → List Tok
+  | [] => []
+  | .ch c :: r => (utf8Char c).map Tok.byte ++ toksOfOps colour r
+  | .style s :: r => (if colour then [Tok.sgr s] else []) ++ toksOfOps colour r
+
+/-- the tokens a pattern must produce (token-exact for `ordered` patterns) -/
+def specFToks (colour : Bool) (level : Nat) (f : FChunks) : List Tok :=
+  toksOfOps colour (specOps level f)
+
+/-- as a `Want` for the appender-level specification (`f l` = the pattern with `{l}`/`{m}` resolved) -/
+def formattedWant (f : Nat → FChunks) : Want := fun colour l => specFToks colour l (f l)
 
 /-- the style requests a pattern makes for a record of level `level`, in order; parameters are
 ignored on purpose -/
@@ -49,20 +120,55 @@ def fEscFree : FChunks → Bool
   | .highlight p inner rest => (p.fill != ESCc) && fEscFree inner && fEscFree rest
   | .group p inner rest => (p.fill != ESCc) && fEscFree inner && fEscFree rest
 
+/-- the style-protocol part of the verdict (all that is specified for patterns with `m > M`) -/
+def stylesVerdict (colour : Bool) (level : Nat) (f : FChunks) (toks : List Tok) : Verdict :=
+  let ss := sgrToks toks
+  if !colour then
+    if ss.isEmpty then .ok
+    else .fail "C: escape sequences although colour is disabled" "C18/hl-escapes-while-disabled"
+  else if !wellNested ss then
+    .fail "H: an opening highlight style is not followed by a matching reset" "C18/highlight-reset-missing"
+  else if ss != specStyles level f then
+    .fail "H: styles/resets differ from one style and one reset per highlighted group" "C18/hl-highlight"
+  else .ok
+
 /-- verdict on the bytes the real encoder produced for pattern `f` at `level`.
-`colour` = the sink is a colour writer. -/
+`colour` = the sink is a colour writer.
+* `ordered` patterns (every minimum ≤ its maximum — the side condition of C10's statement): the
+  bytes must be exactly the rendering of `specFToks` — text, padding, and the POSITION of every
+  style and reset. No hypothesis about ESC in the content is needed for this comparison. When they
+  differ the scanner is used to name the clause.
+* other patterns: the width law says nothing about the text; the style protocol is checked with the
+  scanner, provided the content is ESC-free (otherwise nothing is specified here). -/
 def formattedVerdict (colour : Bool) (level : Nat) (f : FChunks) (bs : Bytes) : Verdict :=
-  match scan bs with
-  | none => .fail "S: the output contains an escape sequence outside the SGR grammar" "C18/hl-malformed-escape"
-  | some toks =>
-    let ss := sgrToks toks
-    if !colour then
-      if ss.isEmpty then .ok
-      else .fail "C: escape sequences although colour is disabled" "C18/hl-escapes-while-disabled"
-    else if !wellNested ss then
-      .fail "H: an opening highlight style is not followed by a matching reset" "C18/highlight-reset-missing"
-    else if ss != specStyles level f then
-      .fail "H: styles/resets differ from one style and one reset per highlighted group" "C18/hl-highlight"
-    else .ok
+  if fOrdered f then
+    let want := specFToks colour level f
+    if bs == render want then .ok
+    else match scan bs with
+      | none =>
+        if fEscFree f then .fail "S: the output contains an escape sequence outside the SGR grammar" "C18/hl-malformed-escape"
+        else .fail "the bytes are not the pattern's text with one SGR sequence per style request" "C18/hl-bytes"
+      | some toks =>
+        match stylesVerdict colour level f toks with
+        | .ok =>
+          if literalBytes toks != literalBytes want then
+            .fail "W: the text is not the pattern's text cut and padded as its parameters say" "C18/hl-text"
+          else
+            .fail "H: a style or reset is not where the group begins / ends (fill characters belong outside the pair, the group's visible text inside)" "C18/highlight-position"
+        | v => v
+  else if !fEscFree f then .ok
+  else match scan bs with
+    | none => .fail "S: the output contains an escape sequence outside the SGR grammar" "C18/hl-malformed-escape"
+    | some toks => stylesVerdict colour level f toks
+
+/-- R3: the target stream accepts `limit` bytes and fails afterwards; `full` = what the appender
+must write when nothing fails. What the statement can still demand: nothing but a prefix of `full`
+arrives, and everything arrives (and no error is reported) when it fits. -/
+def failedStreamVerdict (limit : Nat) (full : Bytes) (rc : Nat) (got : Bytes) : Verdict :=
+  if !(got.isPrefixOf full) then
+    .fail "W: what reached the stream is not a prefix of the encoded text" "C18/failing-stream-not-a-prefix"
+  else if full.length ≤ limit && (got != full || rc != 0) then
+    .fail "W: the stream accepted everything, yet the text is incomplete or an error was reported" "C18/failing-stream-incomplete"
+  else .ok
 
 end Log4rs.Console.Spec
